@@ -191,7 +191,10 @@ impl TableBuilder for PostgresQueryBuilder {
                                 column_def.name.prepare(sql.as_writer(), self.quote());
                                 write!(sql, ")").unwrap();
                             }
-                            ColumnSpec::Check(check) => self.prepare_check_constraint(check, sql),
+                            ColumnSpec::Check(check) => {
+                                write!(sql, "ADD ").unwrap();
+                                self.prepare_check_constraint(check, sql)
+                            }
                             ColumnSpec::Generated { .. } => {}
                             ColumnSpec::Extra(string) => write!(sql, "{string}").unwrap(),
                             ColumnSpec::Comment(_) => {}
